@@ -1,9 +1,13 @@
 package crash
 
 import (
+	"bytes"
 	stdctx "context"
 	"fmt"
+	"runtime/pprof"
+	"strings"
 	"sync"
+	"sync/atomic"
 	"time"
 
 	"github.com/element-of-surprise/coercion"
@@ -123,6 +127,14 @@ func RunCosmos(plans []*spec.Plan, cutoff int64, watchdog time.Duration) (*Cosmo
 		if !run.CutOff && !finished {
 			return nil, fmt.Errorf("cosmos run neither reached the cutoff nor finished within %v", watchdog)
 		}
+		// a write that was let through has "reached the storage": it must have landed before the next process
+		// looks (a goroutine descheduled between the gate and the fake would otherwise write into the recovery)
+		for cv.Pending() > 0 {
+			if time.Now().After(deadline) {
+				return nil, fmt.Errorf("a client write that was let through did not return within %v", watchdog)
+			}
+			time.Sleep(time.Millisecond)
+		}
 		// let the other goroutines of the "dead" process run into the gate too
 		eng.Quiesce(l, 15*time.Millisecond, 5*time.Second)
 	}
@@ -144,10 +156,23 @@ type CosmosRecovered struct {
 	Returned  []bool
 	Events    []plug.Event
 	NewErr    string
+	Dump      string // goroutines of live processes inside coercion code, taken when a Wait did not return
 }
 
 // Reopen builds the next process's vault, snapshots the durable state and recovers with a normal Workstream.
-func (r *CosmosRun) Reopen(watchdog time.Duration) *CosmosRecovered {
+func (r *CosmosRun) Reopen(watchdog time.Duration) (out *CosmosRecovered) {
+	// every goroutine of this process (pool workers included: the pool is created inside) carries a label, so
+	// that a dump taken at a hang can tell them from the parked goroutines of dead processes
+	label := fmt.Sprintf("recover-%d", procSeq.Add(1))
+	pprof.Do(stdctx.Background(), pprof.Labels("vproc", label), func(stdctx.Context) {
+		out = r.reopen(watchdog, label)
+	})
+	return out
+}
+
+var procSeq atomic.Int64
+
+func (r *CosmosRun) reopen(watchdog time.Duration, label string) *CosmosRecovered {
 	ctx, pool := procCtx()
 	l := plug.NewLog()
 	reg := plug.Registry(l)
@@ -167,8 +192,11 @@ func (r *CosmosRun) Reopen(watchdog time.Duration) *CosmosRecovered {
 		return out
 	}
 	for _, id := range r.IDs {
-		p, _, ok := eng.WaitPlan(ws, id, watchdog)
+		p, _, ok := eng.WaitPlanP(ws, id, watchdog, func() int64 { n, _ := nv.Writes(); return n })
 		out.Returned = append(out.Returned, ok)
+		if !ok && out.Dump == "" {
+			out.Dump = liveDump(label)
+		}
 		if ok && p != nil {
 			out.Finals = append(out.Finals, spec.View(p))
 		} else {
@@ -204,4 +232,31 @@ func closePool(p *worker.Pool) {
 	c, cancel := stdctx.WithTimeout(stdctx.Background(), 2*time.Second)
 	defer cancel()
 	p.Close(c)
+}
+
+// liveDump returns the stacks (grouped, with counts) of the goroutines labelled as belonging to the given process.
+func liveDump(label string) string {
+	var b bytes.Buffer
+	pprof.Lookup("goroutine").WriteTo(&b, 1)
+	var keep []string
+	for _, g := range strings.Split(b.String(), "\n\n") {
+		if !strings.Contains(g, "\"vproc\":\""+label+"\"") {
+			continue
+		}
+		var lines []string
+		for _, l := range strings.Split(g, "\n") {
+			if i := strings.Index(l, "\t"); i >= 0 && strings.HasPrefix(l, "#") {
+				f := strings.Fields(l)
+				if len(f) >= 3 {
+					l = "  " + f[2] + " " + f[len(f)-1]
+				}
+			}
+			lines = append(lines, l)
+		}
+		if len(lines) > 18 {
+			lines = lines[:18]
+		}
+		keep = append(keep, strings.Join(lines, "\n"))
+	}
+	return strings.Join(keep, "\n\n")
 }
